@@ -163,6 +163,26 @@ func vpH_C12_lists() {
 	vpReach("end")
 }
 
+// decoding is read-only with respect to everything that existed before the call (no hidden shared
+// state: a package-level parser or buffer would make concurrent decoders of unrelated documents race):
+// every JSON and text decoding entry point of the current source, on well-formed inputs of several kinds
+func vpH_C12_decoders() {
+	e := vpChoice(len(vpDecodeEntries))
+	name := vpDecodeEntries[e]
+	if vpIsGobEntry(name) {
+		vpReach("end")
+		return
+	}
+	docs := []string{`"text"`, `{"en":"a","fr":"b"}`, `["a",{"en":"b"}]`, `{"id":"https://h.ex/u","type":"Note","name":"n","to":["https://h.ex/t"]}`, `"https://h.ex/i"`, `["https://h.ex/a","https://h.ex/b"]`, `{"content":"c","mediaType":"text/x"}`, `text`}
+	d := []byte(docs[vpChoice(len(docs))])
+	vpFreeze()
+	p := vpMayPanic(func() { _, _ = vpDecodeEntry(e, d) })
+	vpAssert("decoders/no-panic/"+name, !p)
+	p = vpMayPanic(func() { _, _ = vpDecodeEntry(e, d) })
+	vpAssert("decoders/no-panic-second/"+name, !p)
+	vpReach("end")
+}
+
 func vpW_C12_twin() {
 	x := vpPopulated(0)
 	vpFreeze()
